@@ -330,7 +330,9 @@ def _discharge_all(E, rep):
                     o.reason = f"path contains unmodelled call(s) {o.tainted}: heap havoced, refutation not trusted"
                 elif r.model is not None:
                     o.model_text = _model_text(r.model)
-                    if o.func == E.cur and hasattr(E, "entry_state") and o.kind.startswith(("post#", "raises")):
+                    o.modulo_wf = bool(getattr(r, "modulo_wf", False))
+                    if o.func == E.cur and hasattr(E, "entry_state") and o.kind.startswith(("post#", "raises")) \
+                            and E.cur in E.reg.contracts and _native_ok(E.reg.contracts[E.cur]):
                         from .replay import try_replay
                         o.replay = try_replay(E, E.cur, r.model, E.entry_state, E.entry_frame, getattr(o, "clause", None),
                                               "raises" if o.kind == "raises" else "post")
@@ -383,6 +385,12 @@ def _discharge_all(E, rep):
                 o.reason = ("discharged by the solver, but the REAL function violates the clause on a concrete input: the model "
                             "(value semantics / assumed contracts) does not capture this behaviour")
                 o.replay = {"reproduced": True, "detail": w["observed"], "inputs": w["inputs"]}
+    # a counter-model obtained only after dropping the list-canonical-form axioms is a CANDIDATE: it counts as a refutation
+    # only when a failing input was reproduced on the real function; otherwise the obligation stays undecided
+    for o in E.obls:
+        if o.status == "refuted" and getattr(o, "modulo_wf", False) and not (getattr(o, "replay", None) or {}).get("reproduced"):
+            o.status = "undecided"
+            o.reason = "full query: unknown; candidate counter-model (list-canonical-form axioms dropped) could not be replayed on the real function"
     for o in E.obls:
         rep.obligations.append({
             "id": o.id, "func": o.func, "kind": o.kind, "label": o.label, "status": o.status, "backend": o.backend,
